@@ -40,6 +40,7 @@ func runC02(c *Ctx, r *Rec) {
 		return
 	}
 	ms := c.methodsOf(set)
+	checkEmptyOperand(c, r, "D1-empty-operand", c.info("collection"), ms)
 	// the search helper: the private method returning (int, bool)
 	var search *ast.FuncDecl
 	for _, name := range sortedKeys(ms) {
